@@ -1,4 +1,5 @@
 import json
+import re
 
 from stone.backends.helpers import (
     fmt_camel,
@@ -38,10 +39,19 @@ _base_type_table = {
 }
 
 
+# An escape \UXXXXXXXX in the repr() of a string: preceded by an even number
+# of backslashes (each pair is an escaped backslash of the string itself).
+_py_long_escape_re = re.compile(r'(?<!\\)((?:\\\\)*)\\U([0-9a-fA-F]{8})')
+
+
 def fmt_obj(o):
     if isinstance(o, str):
         # Prioritize single-quoted strings per JS style guides.
-        return repr(o).lstrip('u')
+        # repr() is a JavaScript string literal too, except for \UXXXXXXXX
+        # (a non-printable character outside the BMP), which is \u{X} there.
+        return _py_long_escape_re.sub(
+            lambda m: m.group(1) + '\\u{%x}' % int(m.group(2), 16),
+            repr(o).lstrip('u'))
     else:
         return json.dumps(o, indent=2)
 
